@@ -9,7 +9,7 @@ def reg(cid, **kw):
     CHECKS[cid] = kw
 
 
-HOOK_COMMITS = []
+HOOK_COMMITS = ["ca09cd0"]
 NOT_APPLICABLE = {}
 
 reg("C02", level="exploration", overlay="plain",
@@ -18,3 +18,11 @@ reg("C02", level="exploration", overlay="plain",
     budget={"quick": 120, "thorough": 1500}, workers={"quick": 8, "thorough": 16},
     assumptions=["offset alphabet is boundary-dense, not all of int64: {0,+-1,2,+-3,+-2^61,+-(2^62-1)} plus MinInt64/MaxInt64 for faulty entries",
                  "n <= 7 (quick) / 10 (thorough) for containment, n <= 7 / 8 for full permutation enumeration"])
+
+reg("C09", level="exploration", overlay="world",
+    technique="exhaustive enumeration of the datagram space against the real receive loop over an in-memory network",
+    level_text="The real runIPServer loop (unmodified apart from the net/unix import paths) receives every datagram of the stated finite space; after each one the number, destination and header of the datagrams it wrote are compared with the statement's predicate. Exhaustive over the space, no sampling.",
+    budget={"quick": 120, "thorough": 600}, workers={"quick": 2, "thorough": 2},
+    assumptions=["header bytes 1..47 take four patterns, not all values (the request predicate reads only byte 0)",
+                 "trailing data is zeros/0xff/constant or a project-encoded NTS request (optionally with one flipped bit)",
+                 "kernel socket behaviour is emulated by shim/vnet + shim/vunix"])
